@@ -440,4 +440,18 @@ def fixesDisjointSorted {α} (len : Nat) : Nat → List (Fix α) → Bool
   | i, [] => decide (i ≤ len)
   | i, f :: rest => decide (i ≤ f.start) && decide (f.start ≤ f.stop) && fixesDisjointSorted len f.stop rest
 
+/-- `apply_fixes` after the repair "skip a fix that overlaps an already applied one"
+(patches/refactor-fix-apply-fixes-skip-overlap.diff): the fixes are visited in descending start
+order; `bound` is the start of the last applied fix (initially the text length); a fix with
+`start > end` or `end > bound` is skipped. No slice can be out of range, so there is no panic. -/
+def applyFixesSkipGo {α} : List (Fix α) → List α → Nat → List α
+  | [], r, _ => r
+  | f :: rest, r, bound =>
+    if f.start ≤ f.stop ∧ f.stop ≤ bound then
+      applyFixesSkipGo rest (r.take f.start ++ f.new ++ r.drop f.stop) f.start
+    else applyFixesSkipGo rest r bound
+
+def applyFixesSkip {α} (src : List α) (fixes : List (Fix α)) : List α :=
+  applyFixesSkipGo (fixes.mergeSort (fun a b => decide (b.start ≤ a.start))) src src.length
+
 end Validators
